@@ -892,3 +892,195 @@ Proof.
   intros w s Hw H. unfold nowrap_line in H. apply andb_true_iff in H. destruct H as [Hc Hf].
   apply fill_short_id; [assumption|assumption|]. now apply Nat.leb_le.
 Qed.
+
+(* ------------------------------------------------------------------ *)
+(* the guard of fill is exactly its domain                              *)
+(* ------------------------------------------------------------------ *)
+
+Lemma fill_guard_ok : forall w s, fill_guard w s = true -> exists r, fill w s = Ok r.
+Proof.
+  intros w s H. unfold fill_guard in H.
+  apply andb_true_iff in H. destruct H as [H Hfit].
+  apply andb_true_iff in H. destruct H as [H Hhy].
+  apply andb_true_iff in H. destruct H as [Hw Htab].
+  apply Nat.ltb_lt in Hw. apply negb_true_iff in Htab. apply negb_true_iff in Hhy.
+  unfold fill. rewrite Htab, Hhy. cbn [orb].
+  assert (E : existsb (fun c => Nat.ltb w (List.length c)) (chunks (replace_ws s)) = false).
+  { destruct (existsb (fun c => Nat.ltb w (List.length c)) (chunks (replace_ws s))) eqn:E; [|reflexivity].
+    apply existsb_exists in E. destruct E as [c [Hin Hlt]]. rewrite forallb_forall in Hfit.
+    specialize (Hfit c Hin). apply Nat.leb_le in Hfit. apply Nat.ltb_lt in Hlt. lia. }
+  rewrite E. assert (E0 : Nat.eqb w 0 = false) by (apply Nat.eqb_neq; lia). rewrite E0.
+  eexists. reflexivity.
+Qed.
+
+Lemma fill_ok_guard : forall w s r, fill w s = Ok r -> fill_guard w s = true.
+Proof.
+  intros w s r H. destruct (fill_inv w s r H) as [Hw [Htab [Hhy [Hfit _]]]].
+  unfold fill_guard. rewrite Htab, Hhy. cbn [negb andb].
+  assert (E : Nat.ltb 0 w = true) by now apply Nat.ltb_lt. rewrite E. cbn [andb].
+  rewrite forallb_forall. intros c Hc. rewrite Forall_forall in Hfit. apply Nat.leb_le. now apply Hfit.
+Qed.
+
+Lemma C18_fill_partial_lemma : forall w s, fill_guard w s = true ->
+                                           exists r, fill w s = Ok r /\ C18_fill_at w s r.
+Proof.
+  intros w s H. destruct (fill_guard_ok w s H) as [r Hr]. exists r. split; [assumption|].
+  now apply C18_fill_lemma.
+Qed.
+
+(* ------------------------------------------------------------------ *)
+(* a class-free corollary: single-spaced hyphen-free words              *)
+(* ------------------------------------------------------------------ *)
+
+Lemma takewhile_app_stop : forall (p : ascii -> bool) c rest,
+    forallb p c = true -> (rest = [] \/ exists x t, rest = x :: t /\ p x = false) ->
+    takewhile p (c ++ rest) = c.
+Proof.
+  intros p c rest Hc Hr. induction c as [|y c' IH].
+  - cbn [app]. destruct Hr as [Hr|[x [t [Hr Hx]]]]; subst; [reflexivity|]. cbn [takewhile]. now rewrite Hx.
+  - cbn [forallb] in Hc. apply andb_true_iff in Hc. destruct Hc as [Hy Hc'].
+    cbn [app takewhile]. rewrite Hy. f_equal. now apply IH.
+Qed.
+
+Definition kindp (k : bool) (x : ascii) : bool := Bool.eqb (spc x) k.
+
+Lemma chunk_ok_kindp : forall k c, chunk_ok k c -> forallb (kindp k) c = true.
+Proof.
+  intros k c [_ H]. rewrite forallb_forall in *. intros x Hx. specialize (H x Hx).
+  apply andb_true_iff in H. now destruct H.
+Qed.
+
+Lemma good_head_takewhile : forall k c r, good k (c :: r) -> takewhile (kindp k) (concat (c :: r)) = c.
+Proof.
+  intros k c r [Hc Hr]. cbn [concat]. apply takewhile_app_stop; [now apply chunk_ok_kindp|].
+  destruct r as [|c2 r2]; [now left|]. right. cbn [good] in Hr. destruct Hr as [Hc2 _].
+  destruct c2 as [|x t]; [now destruct Hc2|]. exists x, (t ++ concat r2). split; [reflexivity|].
+  pose proof (chunk_ok_kindp _ _ Hc2) as H. cbn [forallb] in H. apply andb_true_iff in H. destruct H as [H _].
+  unfold kindp in *. apply eqb_prop in H. rewrite H. now destruct k.
+Qed.
+
+Lemma good_unique : forall cs cs' k k', good k cs -> good k' cs' -> concat cs = concat cs' -> cs = cs'.
+Proof.
+  intros cs. induction cs as [|c r IH]; intros cs' k k' Hg Hg' Hcat.
+  - destruct cs' as [|c' r']; [reflexivity|]. exfalso. destruct Hg' as [[Hne _] _].
+    cbn [concat] in Hcat. symmetry in Hcat. apply app_eq_nil in Hcat. now destruct Hcat.
+  - destruct cs' as [|c' r'].
+    + exfalso. destruct Hg as [[Hne _] _]. cbn [concat] in Hcat. apply app_eq_nil in Hcat. now destruct Hcat.
+    + assert (Ek : k = k').
+      { destruct Hg as [Hc _]. destruct Hg' as [Hc' _].
+        pose proof (chunk_ok_kind _ _ Hc) as K1. pose proof (chunk_ok_kind _ _ Hc') as K2.
+        destruct c as [|x t]; [now destruct Hc|]. destruct c' as [|x' t']; [now destruct Hc'|].
+        cbn [concat app] in Hcat. inversion Hcat; subst x'. cbn [is_space_chunk] in K1, K2. congruence. }
+      subst k'.
+      pose proof (good_head_takewhile _ _ _ Hg) as T1. pose proof (good_head_takewhile _ _ _ Hg') as T2.
+      rewrite Hcat in T1. rewrite T1 in T2. subst c'.
+      f_equal. cbn [concat] in Hcat. apply app_inv_head in Hcat.
+      destruct Hg as [_ Hr]. destruct Hg' as [_ Hr']. now apply (IH r' (negb k) (negb k)).
+Qed.
+
+Fixpoint intersperse_sp (ws : list str) : list str :=
+  match ws with
+  | [] => []
+  | [u] => [u]
+  | u :: r => u :: [sp] :: intersperse_sp r
+  end.
+
+Lemma intersperse_concat : forall ws, concat (intersperse_sp ws) = join [sp] ws.
+Proof.
+  intros ws. induction ws as [|u r IH]; [reflexivity|].
+  destruct r as [|v r2]; [cbn; apply app_nil_r|].
+  change (intersperse_sp (u :: v :: r2)) with (u :: [sp] :: intersperse_sp (v :: r2)).
+  cbn [concat]. rewrite IH. reflexivity.
+Qed.
+
+Lemma plain_word_inv : forall w u, plain_word w u = true ->
+    u <> [] /\ chunk_ok false u /\ ~ In (ch 45) u /\ List.length u <= w.
+Proof.
+  intros w u H. unfold plain_word in H. apply andb_true_iff in H. destruct H as [H Hl].
+  apply andb_true_iff in H. destruct H as [Hne Hch]. apply Nat.leb_le in Hl.
+  assert (Hn : u <> []) by (destruct u; [discriminate|discriminate]).
+  split; [assumption|]. split; [|split; [|assumption]].
+  - split; [assumption|]. rewrite forallb_forall in *. intros x Hx. specialize (Hch x Hx).
+    apply andb_true_iff in Hch. destruct Hch as [Ht _]. apply negb_true_iff in Ht. rewrite Ht.
+    unfold spc. destruct (ascii_eqb x sp) eqn:E; [|reflexivity].
+    apply ascii_eqb_eq in E. subst x. discriminate.
+  - intros Hin. rewrite forallb_forall in Hch. specialize (Hch _ Hin).
+    apply andb_true_iff in Hch. destruct Hch as [_ Hh]. now rewrite ascii_eqb_refl in Hh.
+Qed.
+
+Lemma intersperse_good : forall w ws, forallb (plain_word w) ws = true -> good false (intersperse_sp ws).
+Proof.
+  intros w ws. induction ws as [|u r IH]; intros H; [exact I|].
+  cbn [forallb] in H. apply andb_true_iff in H. destruct H as [Hu Hr].
+  destruct (plain_word_inv w u Hu) as [_ [Hc _]].
+  destruct r as [|v r2]; [cbn; tauto|].
+  change (intersperse_sp (u :: v :: r2)) with (u :: [sp] :: intersperse_sp (v :: r2)).
+  cbn [good negb]. split; [assumption|]. split; [split; [discriminate|reflexivity]|]. now apply IH.
+Qed.
+
+Lemma risky_no_hyphen : forall s prev, ~ In (ch 45) s -> risky_hyphen prev s = false.
+Proof.
+  intros s. induction s as [|c r IH]; intros prev H; [reflexivity|].
+  cbn [risky_hyphen]. rewrite IH by (intros Hin; apply H; now right).
+  destruct (ascii_eqb c (ch 45)) eqn:E; [|reflexivity].
+  apply ascii_eqb_eq in E. subst c. exfalso. apply H. now left.
+Qed.
+
+Lemma join_sp_chars : forall w ws x, forallb (plain_word w) ws = true -> In x (join [sp] ws) ->
+    x = sp \/ (tw_space x = false /\ x <> ch 45).
+Proof.
+  intros w ws x H Hx. apply join_chars in Hx. destruct Hx as [[Hx|[]]|[u [Hu Hxu]]]; [left; now symmetry|].
+  right. rewrite forallb_forall in H. specialize (H u Hu). unfold plain_word in H.
+  apply andb_true_iff in H. destruct H as [H _]. apply andb_true_iff in H. destruct H as [_ Hch].
+  rewrite forallb_forall in Hch. specialize (Hch x Hxu). apply andb_true_iff in Hch. destruct Hch as [Ht Hh].
+  apply negb_true_iff in Ht. apply negb_true_iff in Hh. split; [assumption|].
+  intros E. subst x. now rewrite ascii_eqb_refl in Hh.
+Qed.
+
+Lemma fill_guard_plain_words : forall w ws, 0 < w -> forallb (plain_word w) ws = true ->
+                                            fill_guard w (join [sp] ws) = true.
+Proof.
+  intros w ws Hw H. set (s := join [sp] ws).
+  assert (Hchars : forall x, In x s -> x = sp \/ (tw_space x = false /\ x <> ch 45)).
+  { intros x Hx. now apply (join_sp_chars w ws). }
+  assert (Hrw : replace_ws s = s).
+  { apply replace_ws_id. rewrite forallb_forall. intros x Hx. destruct (Hchars x Hx) as [E|[Ht _]].
+    - subst x. reflexivity.
+    - now rewrite Ht. }
+  assert (Htab : mem_c tabch s = false).
+  { destruct (mem_c tabch s) eqn:E; [|reflexivity]. apply mem_c_In in E.
+    destruct (Hchars _ E) as [E2|[Ht _]]; discriminate. }
+  assert (Hhy : risky_hyphen None s = false).
+  { apply risky_no_hyphen. intros Hin. destruct (Hchars _ Hin) as [E|[_ Hne]]; [discriminate|congruence]. }
+  unfold fill_guard. fold s. rewrite Htab, Hhy, Hrw. cbn [negb andb].
+  assert (E : Nat.ltb 0 w = true) by now apply Nat.ltb_lt. rewrite E. cbn [andb].
+  assert (Hn : normal s) by (rewrite <- Hrw; apply replace_ws_normal).
+  destruct (chunks_spec s Hn) as [[k Hg] Hcat].
+  assert (Ecs : chunks s = intersperse_sp ws).
+  { apply (good_unique _ _ k false Hg (intersperse_good w ws H)). rewrite Hcat. unfold s.
+    symmetry. apply intersperse_concat. }
+  rewrite Ecs. clear - Hw H. induction ws as [|u r IH]; [reflexivity|].
+  cbn [forallb] in H. apply andb_true_iff in H. destruct H as [Hu Hr].
+  destruct (plain_word_inv w u Hu) as [_ [_ [_ Hl]]]. apply Nat.leb_le in Hl.
+  destruct r as [|v r2]; [cbn [intersperse_sp forallb]; now rewrite Hl|].
+  change (intersperse_sp (u :: v :: r2)) with (u :: [sp] :: intersperse_sp (v :: r2)).
+  cbn [forallb]. rewrite Hl. rewrite IH by assumption.
+  assert (E1 : Nat.leb (List.length [sp]) w = true) by (apply Nat.leb_le; cbn; lia). now rewrite E1.
+Qed.
+
+Lemma words_join_plain : forall w ws, forallb (plain_word w) ws = true -> words (join [sp] ws) = ws.
+Proof.
+  intros w ws H. rewrite words_join_sep by reflexivity. induction ws as [|u r IH]; [reflexivity|].
+  cbn [forallb] in H. apply andb_true_iff in H. destruct H as [Hu Hr].
+  destruct (plain_word_inv w u Hu) as [Hne [Hc _]].
+  cbn [map concat]. rewrite IH by assumption. rewrite words_word; [reflexivity|assumption|now apply chunk_ok_word].
+Qed.
+
+Lemma C18_fill_plain_words_lemma : forall w ws, 0 < w -> forallb (plain_word w) ws = true ->
+    exists r, fill w (join [sp] ws) = Ok r /\ lines_le w r /\ words r = ws /\ clean_edges r.
+Proof.
+  intros w ws Hw H. destruct (fill_guard_ok w _ (fill_guard_plain_words w ws Hw H)) as [r Hr].
+  exists r. split; [assumption|]. split; [now apply (fill_width w _ r)|]. split.
+  - rewrite (fill_words w _ r Hr). now apply (words_join_plain w).
+  - now apply (fill_edges w _ r).
+Qed.
